@@ -131,6 +131,29 @@ Definition _parse_npath (npath : str) : res (list (str * bool)) :=
 Ok segments_27)))))))) end))))))).
 
 (* raise sites: 8 *)
+(* GENERATED from cli/manipulations.py:_split_scope_npath (idiom A with break) *)
+Definition STATE__split_scope_npath : Type := nat.
+Definition _split_scope_npath_step (st : STATE__split_scope_npath) (ch : ascii) : res (bool * STATE__split_scope_npath) :=
+  let depth := st in
+(if (negb (ch =c (c 64)))
+ then Ok (false, depth)
+ else (let depth_2 := S depth in
+Ok (true, depth_2))).
+Fixpoint _split_scope_npath_loop (st : STATE__split_scope_npath) (s : str) : res STATE__split_scope_npath :=
+  match s with [] => Ok st | ch :: r => match _split_scope_npath_step st ch with Ok (true, st') => _split_scope_npath_loop st' r | Ok (false, st') => Ok st' | Err e => Err e end end.
+Definition _split_scope_npath (npath : str) : res (option (nat * str)) :=
+(let depth_1 := 0 in
+(match _split_scope_npath_loop depth_1 npath with
+ | Err e => Err e
+ | Ok st => let depth' := st in
+(if (Nat.eqb depth' 0)
+ then Ok None
+ else (let remainder_3 := (skipn depth' npath) in
+(if (negb (negb (isnil remainder_3)))
+ then Err 11
+ else Ok (Some (depth', remainder_3))))) end)).
+
+(* raise sites: 1 *)
 (* GENERATED from expressions/binding.py:_split_attrpath (idiom B over a state tuple) *)
 Definition STATE__split_attrpath : Type := (list str * str * bool * bool * nat * bool * bool)%type.
 Fixpoint _split_attrpath_loop (fuel : nat) (rest : str) (st : STATE__split_attrpath) : res STATE__split_attrpath :=
